@@ -197,7 +197,7 @@ def evaluate__div_operator(self: XPathToken, context: ta.ContextType = None) \
             isinstance(dividend, (int, decimal.Decimal)) and \
             isinstance(divisor, (int, decimal.Decimal)):
         raise self.error('FOAR0001')
-    elif dividend == 0:
+    elif dividend == 0 or isinstance(dividend, float) and math.isnan(dividend):
         return math.nan
     elif dividend > 0:
         return float('-inf') if str(divisor).startswith('-') else float('inf')
